@@ -290,7 +290,22 @@ def sk10(iso, L, cfg, hook=_nohook, fp=None):
             'udf_symlinks': {'/dir1/dir2/sym': '../\u0434\u0430/ccc'} if cfg['udf'] else {}}
 
 
-SKELETONS = {'sk1': sk1, 'sk2': sk2, 'sk3': sk3, 'sk4': sk4, 'sk5': sk5, 'sk6': sk6, 'sk7': sk7, 'sk8': sk8, 'sk9': sk9, 'sk10': sk10}
+def sk11(iso, L, cfg, hook=_nohook, fp=None):
+    """UDF hard links that STAY: /aaa linked as /bbb and /dir1/ddd (three identifiers for one File Entry), one of them removed again,
+    a second file linked once   (3 lengths; needs cfg.udf)"""
+    fp = fp or h.InFP()
+    iso.add_fp(fp, L[0], **fkw(cfg, 'AAA')); hook(0)
+    iso.add_directory(**dkw(cfg, 'DIR1')); hook(1)
+    iso.add_hard_link(udf_old_path='/aaa', udf_new_path='/bbb'); hook(2)
+    iso.add_hard_link(udf_old_path='/aaa', udf_new_path='/dir1/ddd'); hook(3)
+    iso.add_fp(fp, L[1], **fkw(cfg, 'CCC', '/DIR1')); hook(4)
+    iso.add_hard_link(udf_old_path='/dir1/ccc', udf_new_path='/eee'); hook(5)
+    iso.rm_hard_link(udf_path='/bbb'); hook(6)
+    iso.add_fp(fp, L[2], **fkw(cfg, 'FFF')); hook(7)
+    return {'files': {'/AAA.;1': L[0], '/DIR1/CCC.;1': L[1], '/FFF.;1': L[2]}, 'dirs': ['/DIR1'], 'steps': 8}
+
+
+SKELETONS = {'sk1': sk1, 'sk2': sk2, 'sk3': sk3, 'sk4': sk4, 'sk5': sk5, 'sk6': sk6, 'sk7': sk7, 'sk8': sk8, 'sk9': sk9, 'sk10': sk10, 'sk11': sk11}
 
 
 # ---- object collection (what occupies which sectors) ----------------------------------------------
